@@ -1,6 +1,8 @@
 package checks
 
 import (
+	"os"
+
 	"verif.local/pvmon/internal/h"
 	"verif.local/pvmon/internal/spec"
 )
@@ -31,7 +33,7 @@ func genScripts(k *h.Case, prof spec.Profile, n int) (*spec.Gen, *spec.Program) 
 func layoutOf(k *h.Case, p *spec.Program, pScramble float64) *spec.Printed {
 	pr := spec.Print(p)
 	o := spec.LayoutOpts{R: k.R}
-	if h.Chance(k.R, pScramble) {
+	if h.Chance(k.R, pScramble) && os.Getenv("VERIF_NO_SCRAMBLE") == "" {
 		o.Scramble = true
 		o.CRLF = k.R.IntN(4) == 0
 	}
